@@ -120,7 +120,7 @@ func cmpRun(input string) string {
 		a, b, c := buildWire(parts[1]), buildWire(parts[2]), buildWire(parts[3])
 		return fmt.Sprintf("%s,%s,%s;%s%s%s", safeCmp(a, b), safeCmp(b, c), safeCmp(a, c), safeEq(a, b), safeEq(b, c), safeEq(a, c))
 	}
-	return "?"
+	return cmpExtRun(parts) // O (sort) and N (min/max of several values): cmp_sort.go
 }
 
 func wf(f float64) string  { return fmt.Sprintf("d%016x", math.Float64bits(f)) }
@@ -302,4 +302,5 @@ func cmpGen(tier string, r *rng, emit func(string)) {
 	for i := 0; i < nrand; i++ {
 		triple(all[r.intn(len(all))], all[r.intn(len(all))], all[r.intn(len(all))])
 	}
+	cmpExtGen(tier, r, u, pool, emit) // sorting, min/max of several values: cmp_sort.go
 }
